@@ -1,5 +1,7 @@
 ----------------------------- MODULE Trace_Json -----------------------------
-(* Step V for C07: one event per message the decoder accepted.  The harness *)
+(* Step V for C07: one event per message the decoder accepted (kind "msg"), *)
+(* and one per record of the position-attached family (kind "pos", see     *)
+(* Gen_PosRecords.tla).  The harness *)
 (* serialised the Message and a TimedMessage holding it (serde_json), read  *)
 (* both texts with its own lexer, extracted the df / icao24 entries as       *)
 (* character codes and the bytes of the `frame` entry, decoded those bytes   *)
@@ -41,8 +43,12 @@ DfOk(ev) == Addressed(ev) =>
 IcaoOk(ev) == (Addressed(ev) /\ CarriesAddress(ev.bytes)) =>
                 LET a == Hex6(ShownICAOFast(ev.bytes)) IN ev.icao = a /\ ev.ticao = a
 FrameOk(ev) == ev.frame_t = "hex" /\ ev.frame_b = ev.bytes
+(* Records of kind "pos" went through cpr::decode_positions with the other  *)
+(* reports of the same aircraft: a position may have been attached, which   *)
+(* decoding the frame alone cannot give back; for them the frame must       *)
+(* decode and serialise again, the texts are not compared.                  *)
 Redecode(ev) == /\ ev.re_out = "ok" /\ ev.re_ser = "ok"
-                /\ ev.re_h = ev.h_t /\ ev.re_h_m = ev.h_m
+                /\ ev.e = "pos" \/ (ev.re_h = ev.h_t /\ ev.re_h_m = ev.h_m)
 
 Ok(ev) == /\ Serialises(ev) /\ OneLine(ev) /\ NoDup(ev) /\ Finite(ev)
           /\ DfOk(ev) /\ IcaoOk(ev) /\ FrameOk(ev) /\ Redecode(ev)
